@@ -103,13 +103,21 @@ class Tacd:
             return None
 
     def _wait_listening(self):
-        for _ in range(200):
+        # generating an RSA 4096 key in a debug build on a busy machine takes many seconds: as long as the process is there it is given
+        # a minute to start listening
+        t_end = time.time() + 60
+        while time.time() < t_end:
             if self.daemon:
                 # the launching process ends at once (exit 0 = detached); the service is the process named by the pid file
                 rc = self.p.poll()
                 if rc not in (None, 0):
                     return False
                 self.dpid = self._daemon_pid() or self.dpid
+                if rc == 0 and self.dpid:
+                    try:
+                        os.kill(self.dpid, 0)
+                    except OSError:
+                        return False          # detached, wrote its pid file and is gone
             elif self.p.poll() is not None:
                 return False
             try:
